@@ -420,6 +420,87 @@ fn unaligned_case<W: TW>(cx: &mut Ctx, u: &mut Unstructured) -> R {
     Ok(())
 }
 
+/// The blanket implementations for `AsRef<[W]> + AsMut<[W]>`: plain vectors,
+/// boxed slices and arrays are bit-field slices of width `W::BITS`.
+fn plain_slice_case<W: TW>(cx: &mut Ctx, u: &mut Unstructured) -> R
+where
+    Vec<W>: BitFieldSliceMut<W> + BitFieldSlice<W>,
+    Box<[W]>: BitFieldSliceMut<W> + BitFieldSlice<W>,
+{
+    let n = len_class(u, 70);
+    let m = len_class(u, 70);
+    let salt: u64 = u.arbitrary().unwrap_or(7);
+    let val = |i: usize, s: u64| W::from128(field_hash(i, s, W::WBITS));
+    let src: Vec<W> = (0..n).map(|i| val(i, salt)).collect();
+    let dst0: Vec<W> = (0..m).map(|i| val(i, salt ^ 0xABCD)).collect();
+    cx.hash(&(W::NAME, n, m, salt));
+    cx.describe(|| format!("plain slices of {}: src.len={n} dst.len={m}", W::NAME));
+    cx.nontrivial_if(n >= 2 && m >= 2);
+    let bw = cx.must("bit_width", || BitFieldSliceCore::<W>::bit_width(&src))?;
+    cx.check_eq(bw, W::WBITS, "slice.bit_width", || "bit_width of a plain slice".into())?;
+    let l = cx.must("len", || BitFieldSliceCore::<W>::len(&src))?;
+    cx.check_eq(l, n, "slice.len", || "len of a plain slice".into())?;
+    for i in 0..n {
+        let g = cx.must("get", || BitFieldSlice::<W>::get(&src, i))?;
+        cx.check_eq(g.to128(), src[i].to128(), "slice.get", || format!("get({i}) on Vec<{}>", W::NAME))?;
+    }
+    cx.must_panic("get(len)", || BitFieldSlice::<W>::get(&src, n))?;
+    // copy
+    for _ in 0..3 {
+        let from = index(u, n + 1);
+        let to = index(u, m + 1);
+        let len = match u.int_in_range(0u8..=3).unwrap_or(0) {
+            0 => usize::MAX / 128,
+            1 => n.max(m),
+            _ => index(u, n.max(m) + 2),
+        };
+        let mut dst = dst0.clone();
+        cx.must("copy", || BitFieldSliceMut::<W>::copy(&src, from, &mut dst, to, len))?;
+        let mut want = dst0.clone();
+        for i in 0..len.min(n - from).min(m - to) {
+            want[to + i] = src[from + i];
+        }
+        cx.check(dst == want, "slice.copy", || format!("copy({from}, dst, {to}, {len}) between Vec<{}> of {n} and {m} elements", W::NAME))?;
+        // the same through boxed slices
+        let bsrc: Box<[W]> = src.clone().into_boxed_slice();
+        let mut bdst: Box<[W]> = dst0.clone().into_boxed_slice();
+        cx.must("copy", || BitFieldSliceMut::<W>::copy(&bsrc, from, &mut bdst, to, len))?;
+        cx.check(bdst[..] == want[..], "slice.copy", || format!("copy({from}, dst, {to}, {len}) between Box<[{}]> of {n} and {m} elements", W::NAME))?;
+    }
+    // set / apply_in_place / reset / par_reset / try_chunks_mut
+    let mut v = src.clone();
+    if n > 0 {
+        let i = index(u, n);
+        let x = val(i, salt ^ 0x77);
+        cx.must("set", || BitFieldSliceMut::<W>::set(&mut v, i, x))?;
+        let mut want = src.clone();
+        want[i] = x;
+        cx.check(v == want, "slice.set", || format!("set({i}) on Vec<{}> of {n}", W::NAME))?;
+        cx.must_panic("set(len)", || BitFieldSliceMut::<W>::set(&mut v, n, x))?;
+        cx.check(v == want, "slice.set", || "a rejected set changed the slice".to_string())?;
+    }
+    let before = v.clone();
+    let mut seen: Vec<u128> = vec![];
+    cx.must("apply_in_place", || BitFieldSliceMut::<W>::apply_in_place(&mut v, |x| { seen.push(x.to128()); W::from128(!x.to128() & mask128(W::WBITS)) }))?;
+    cx.check(seen == before.iter().map(|x| x.to128()).collect::<Vec<_>>(), "slice.apply", || format!("apply_in_place on Vec<{}> of {n}: f called on {:?}.. ({} calls)", W::NAME, &seen[..seen.len().min(4)], seen.len()))?;
+    cx.check(v.iter().zip(before.iter()).all(|(a, b)| a.to128() == !b.to128() & mask128(W::WBITS)), "slice.apply", || "apply_in_place stored wrong results".to_string())?;
+    let c = 1 + index(u, n + 2);
+    {
+        let chunks = cx.must("try_chunks_mut", || BitFieldSliceMut::<W>::try_chunks_mut(&mut v, c).map(|it| it.map(|ch| ch.len()).collect::<Vec<_>>()))?;
+        match chunks {
+            Ok(lens) => {
+                let want: Vec<usize> = (0..n).step_by(c).map(|s| c.min(n - s)).collect();
+                cx.check(lens == want, "slice.chunks", || format!("try_chunks_mut({c}) on {n} elements: chunk lengths {lens:?}"))?;
+            }
+            Err(()) => return Err(Fail::mismatch("slice.chunks", format!("slice.chunks: try_chunks_mut({c}) failed on a plain slice"))),
+        }
+    }
+    let par: bool = u.arbitrary().unwrap_or(false);
+    cx.must("reset", || if par { BitFieldSliceMut::<W>::par_reset(&mut v) } else { BitFieldSliceMut::<W>::reset(&mut v) })?;
+    cx.check(v.len() == n && v.iter().all(|x| x.to128() == 0), "slice.reset", || format!("reset (par {par}) on Vec<{}> of {n}", W::NAME))?;
+    Ok(())
+}
+
 macro_rules! by_word {
     ($sel:expr, $f:ident, $cx:expr, $u:expr) => {
         match $sel % 6 {
@@ -448,11 +529,14 @@ impl Property for C10 {
             Segment::random("try_chunks_mut", tier.pick(240_000, 8_000_000), &[4], 8, 40),
             Segment::random("get_unaligned", tier.pick(160_000, 6_000_000), &[5], 8, 40),
             // the parallel variants split only above 2 * RAYON_MIN_LEN = 200000 words
-            Segment::enumerated("parallel-variants-on-large-vectors", tier.pick(12, 60), &[0xF1]),
+            Segment::enumerated("parallel-variants-on-large-vectors", tier.pick(16, 96), &[0xF1]),
+            Segment::enumerated("parallel-counts-above-2^33-ones-in-small-pools", tier.pick(2, 4), &[0xF2]),
+            // Vec<W> / Box<[W]> / [W; N] seen as bit-field slices of full width
+            Segment::random("plain-slices", tier.pick(60_000, 1_000_000), &[6], 8, 60),
         ]
     }
     fn rule(&self) -> &'static str {
-        "cases decoded from bytes, vectors filled with non-periodic contents (field i = hash(i) masked): (a) copy(from,dst,to,len) for the six word types, generated widths, lengths, spare words, from<=src.len, to<=dst.len, len up to usize::MAX/128, against the element loop on a clone, all of dst compared, src unchanged; plus the complete enumeration for u8 (widths 1..8) and u16 (widths 1..16) with src.len=dst.len=24 over every (from,to,len) in [0,24]^3; (b) apply_in_place with a recording closure on fresh vectors and vectors with spare words (after resize/clear+push/new_unaligned): exactly len calls, in index order, on the current values, results stored, over-wide result must panic; (c) reset/par_reset/reset_atomic/par_reset_atomic and BitVec fill/par_fill/flip/par_flip/reset/par_reset/count_ones/par_count_ones and the atomic twins against per-element loops; (d) try_chunks_mut(c>=1): Ok exactly when len<=c or c*width is a multiple of W::BITS, chunk count/lengths/reads, writes land on exactly the corresponding elements; (e) get_unaligned(i)==get(i) on new_unaligned vectors for widths <= BITS-6, BITS-4, BITS. (f) the parallel variants (par_count_ones, par_flip, par_fill, par_reset, atomic twins, BitFieldVec par_reset/par_reset_atomic) on 12.8-64 Mbit vectors, i.e. above the 2 x 100000-word threshold below which rayon does not split them. Non-trivial: the operation touches at least 2 words; distinct = distinct hash of the decoded case."
+        "cases decoded from bytes, vectors filled with non-periodic contents (field i = hash(i) masked): (a) copy(from,dst,to,len) for the six word types, generated widths, lengths, spare words, from<=src.len, to<=dst.len, len up to usize::MAX/128, against the element loop on a clone, all of dst compared, src unchanged; plus the complete enumeration for u8 (widths 1..8) and u16 (widths 1..16) with src.len=dst.len=24 over every (from,to,len) in [0,24]^3; (b) apply_in_place with a recording closure on fresh vectors and vectors with spare words (after resize/clear+push/new_unaligned): exactly len calls, in index order, on the current values, results stored, over-wide result must panic; (c) reset/par_reset/reset_atomic/par_reset_atomic and BitVec fill/par_fill/flip/par_flip/reset/par_reset/count_ones/par_count_ones and the atomic twins against per-element loops; (d) try_chunks_mut(c>=1): Ok exactly when len<=c or c*width is a multiple of W::BITS, chunk count/lengths/reads, writes land on exactly the corresponding elements; (e) get_unaligned(i)==get(i) on new_unaligned vectors for widths <= BITS-6, BITS-4, BITS. (f) the parallel variants (par_count_ones, par_flip, par_fill, par_reset, atomic twins, BitFieldVec par_reset/par_reset_atomic) on 12.8-64 Mbit vectors, i.e. above the 2 x 100000-word threshold below which rayon does not split them, in rayon pools of 1, 2, 3 and the default number of threads; and all-ones vectors of 2^33..2^34+2^32 bits counted in pools of 1-2 threads (a single leaf above 2^32 ones). (g) the blanket implementations for plain Vec<W>/Box<[W]> (full-width bit-field slices): get/set/copy/apply_in_place/try_chunks_mut/reset/par_reset against the slice itself. Non-trivial: the operation touches at least 2 words; distinct = distinct hash of the decoded case."
     }
     fn run(&self, data: &[u8], cx: &mut Ctx) -> R {
         let (mode, rest) = data.split_first().unwrap_or((&0, &[]));
@@ -473,10 +557,21 @@ impl Property for C10 {
                 copy_exhaustive::<u16>(cx, wi - 7, from)
             };
         }
+        if *mode == 0xF2 {
+            let mut b = [0u8; 8];
+            b[..rest.len().min(8)].copy_from_slice(&rest[..rest.len().min(8)]);
+            return par_dense_huge_case(cx, u64::from_le_bytes(b));
+        }
         if *mode == 0xF1 {
             let mut b = [0u8; 8];
             b[..rest.len().min(8)].copy_from_slice(&rest[..rest.len().min(8)]);
             return par_large_case(cx, u64::from_le_bytes(b));
+        }
+        if *mode == 6 {
+            let mut u = Unstructured::new(rest);
+            let sel = u.int_in_range(0u8..=5).unwrap_or(3);
+            cx.label("plain-slice");
+            return by_word!(sel, plain_slice_case, cx, &mut u);
         }
         let mut u = Unstructured::new(rest);
         let sel = u.int_in_range(0u8..=5).unwrap_or(3);
@@ -500,6 +595,39 @@ impl Property for C10 {
 /// Parallel variants on vectors large enough for rayon to split the work
 /// (`with_min_len(RAYON_MIN_LEN)`, 100000 words per leaf).
 fn par_large_case(cx: &mut Ctx, j: u64) -> R {
+    // the pool size decides into how many leaves rayon splits the work
+    let threads = [0usize, 1, 2, 3][(j / 2) as usize % 4];
+    cx.label(&format!("pool:{threads}"));
+    in_pool(cx, threads, |cx| par_large_inner(cx, j))
+}
+
+/// All-ones vectors with more than 2^33 ones counted in small pools: a single
+/// rayon leaf then holds more than 2^32 ones.
+fn par_dense_huge_case(cx: &mut Ctx, j: u64) -> R {
+    let (len, threads) = [((1usize << 33) + (1 << 30) + 133, 1usize), ((1usize << 33) + 64 * 3 + 1, 1), ((1usize << 34) + (1 << 31) + 77, 2), ((1usize << 34) + (1 << 32), 1)][j as usize % 4];
+    cx.hash(&("par-dense-huge", j));
+    cx.describe(|| format!("all-ones vector of {len} bits, parallel counts in a rayon pool of {threads} thread(s)"));
+    cx.label("ones>2^33");
+    cx.nontrivial();
+    in_pool(cx, threads, |cx| {
+        let mut b = cx.must("with_value", || BitVec::with_value(len, true))?;
+        let c = cx.must("par_count_ones", || b.par_count_ones())?;
+        cx.check_eq(c, len, "par_count_ones.huge", || format!("BitVec::par_count_ones on {len} ones in a pool of {threads}"))?;
+        cx.must("set", || b.set(len / 2, false))?;
+        let a: AtomicBitVec = cx.must("Vec->Atomic", || b.into())?;
+        let c = cx.must("atomic.par_count_ones", || a.par_count_ones())?;
+        cx.check_eq(c, len - 1, "atomic.par_count_ones.huge", || format!("AtomicBitVec::par_count_ones on {} ones in a pool of {threads}", len - 1))?;
+        let c = cx.must("atomic.count_ones", || a.count_ones())?;
+        cx.check_eq(c, len - 1, "atomic.count_ones.huge", || format!("AtomicBitVec::count_ones on {} ones", len - 1))?;
+        let mut b: BitVec = cx.must("Atomic->Vec", || a.into())?;
+        cx.must("par_flip", || b.par_flip())?;
+        let c = cx.must("par_count_ones", || b.par_count_ones())?;
+        cx.check_eq(c, 1, "par_flip.huge", || format!("par_count_ones after par_flip of {} ones", len - 1))?;
+        Ok(())
+    })
+}
+
+fn par_large_inner(cx: &mut Ctx, j: u64) -> R {
     let words = [200_000usize, 200_001, 400_003, 250_000, 1_000_000, 199_999][j as usize % 6];
     let residual = [37usize, 0, 1, 63, 17, 5][(j / 6) as usize % 6];
     let len = words * 64 + residual;
